@@ -29,7 +29,7 @@ import lib
 import sched
 
 # ------------------------------------------------------------------------------------------------ programs
-# op syntax shared with the driver:  inc:o:a get:o lab:k linc:k:a rem:k clr reg:c unreg:c col rcol:c rrcol:c  (+ oracle-only obs:s:a obs:h:a)
+# op syntax shared with the driver:  inc:o:a get:o lab:k linc:k:a rem:k clr reg:c unreg:c col rcol:c rrcol:c  (+ oracle-only obs:s:a obs:h:a info:v state:k sti:v gti)
 # rcol:c  = registry.collect() over a collector that registers/unregisters x<c> and does a restricted lookup and a
 #           get_target_info from inside its collect();  rrcol:c = registry.restricted_registry(['e']).collect() over the same collector
 QUICK_PROGRAMS = [
@@ -47,8 +47,11 @@ QUICK_PROGRAMS = [
     ('c', 'reg:1,unreg:1|col', 1, True),
     ('ce', 'rcol:1|reg:2', 1, True),
     ('ce', 'rrcol:1|reg:2', 1, True),
+    ('c', 'inc:0:1,inc:0:2|col|col', 1, True),              # two collecting threads
     ('s', 'obs:s:2|obs:s:3|col', 1, False),
-    ('h', 'obs:h:1|obs:h:2', 1, False),
+    ('h', 'obs:h:1|obs:h:2|col', 1, False),
+    ('in', 'info:a,state:1|info:b,state:2|col', 1, False),   # Info.info / Enum.state against a collect
+    ('t', 'sti:a,gti|sti:b|col', 1, False),                  # set_target_info / get_target_info against a collect
 ]
 THOROUGH_PROGRAMS = [
     ('c', 'inc:0:1|inc:0:2|col', 2, True),
@@ -67,6 +70,9 @@ THOROUGH_PROGRAMS = [
     ('ce', 'rcol:1|rcol:2|col', 2, True),
     ('cpe', 'rcol:1,inc:0:1|linc:0:1,col', 2, True),
     ('sh', 'obs:s:2,obs:h:1|obs:s:3,obs:h:2|col', 2, False),
+    ('p', 'linc:0:1,linc:0:2|col,col|col', 2, True),
+    ('sh', 'obs:s:2,obs:h:1|col|col,col', 2, False),
+    ('int', 'info:a,sti:x|state:1,sti:y,gti|col,col', 2, False),
 ]
 BACKENDS = ('mutex', 'mmap')
 
@@ -79,15 +85,37 @@ RELEVANT = {
 }
 
 
+# bytecodes that work on the thread's own stack / locals only: pre-empting before one of them is equivalent to pre-empting
+# before the thread's next bytecode that is not in this set (attribute / subscript / closure access, calls, iteration, with)
+LOCAL_OPS = frozenset("""LOAD_FAST LOAD_FAST_CHECK LOAD_FAST_AND_CLEAR STORE_FAST DELETE_FAST LOAD_CONST POP_TOP COPY SWAP RESUME NOP
+PUSH_NULL LOAD_GLOBAL KW_NAMES CACHE JUMP_FORWARD JUMP_BACKWARD JUMP_BACKWARD_NO_INTERRUPT POP_JUMP_IF_TRUE POP_JUMP_IF_FALSE
+POP_JUMP_IF_NONE POP_JUMP_IF_NOT_NONE BUILD_TUPLE BUILD_LIST BUILD_MAP BUILD_SET BUILD_CONST_KEY_MAP BUILD_STRING FORMAT_VALUE
+MAKE_FUNCTION MAKE_CELL LOAD_CLOSURE COPY_FREE_VARS PUSH_EXC_INFO POP_EXCEPT RERAISE RETURN_CONST RETURN_VALUE UNPACK_SEQUENCE
+LIST_APPEND LIST_EXTEND SET_ADD MAP_ADD DICT_MERGE DICT_UPDATE IS_OP COMPARE_OP BINARY_OP UNARY_NOT UNARY_NEGATIVE RAISE_VARARGS
+END_FOR CALL_INTRINSIC_1 RETURN_GENERATOR""".split())
+_OPMAP = {}
+
+
+def pending_op(code, lasti):
+    m = _OPMAP.get(code)
+    if m is None:
+        import dis
+        m = {i.offset: i.opname for i in dis.get_instructions(code)}
+        _OPMAP[code] = m
+    return m.get(lasti, '?')
+
+
 def relevant_point(where):
+    """a pre-emption point worth branching on: a lock operation, or a non-local bytecode of a method that touches shared state"""
     if where is None:
         return False
     if isinstance(where, str):
         return True                      # 'lock' / 'explicit'
-    base = os.path.basename(where.co_filename)
-    if base == 'values.py':
-        return True
-    return where.co_name in RELEVANT.get(base, ())
+    code, lasti = where
+    base = os.path.basename(code.co_filename)
+    if base != 'values.py' and code.co_name not in RELEVANT.get(base, ()):
+        return False
+    return pending_op(code, lasti) not in LOCAL_OPS
 
 
 # ------------------------------------------------------------------------------------------------ the world
@@ -133,7 +161,7 @@ class ReentrantCollector:
 class World:
     def __init__(self, backend, flags):
         import prometheus_client
-        from prometheus_client import values, CollectorRegistry, Counter, Summary, Histogram
+        from prometheus_client import values, CollectorRegistry, Counter, Summary, Histogram, Info, Enum
         self.backend = backend
         self.flags = flags
         self.tmp = None
@@ -152,6 +180,8 @@ class World:
         self.p = Counter('p', 'h', ['l'], registry=self.R) if ('p' in flags or 'q' in flags) else None
         self.s = Summary('s', 'h', registry=self.R) if 's' in flags else None
         self.h = Histogram('hh', 'h', buckets=(1.0, 2.0), registry=self.R) if 'h' in flags else None
+        self.I = Info('inf', 'h', registry=self.R) if 'i' in flags else None
+        self.N = Enum('en', 'h', states=['a', 'b', 'c'], registry=self.R) if 'n' in flags else None
         self.X = {i: XCollector(i) for i in range(1, 5)}
         self.E = None
         if 'e' in flags:
@@ -160,16 +190,36 @@ class World:
         self.children = []               # keeps every child returned alive so id() stays unique
         if 'q' in flags:                 # set-up phase: the children exist before the threads start
             self.children += [self.p.labels('0'), self.p.labels('1')]
-        self.held = []                   # sequence of raw values the counter `c` held (sampled at every scheduling step)
+        self.held = {}                   # series -> sequence of raw values it held (sampled at every scheduling step)
+        self.step = 0                    # scheduling steps so far (op start / end stamps)
+
+    def raw_series(self):
+        """the raw value attributes behind every series, read WITHOUT the library's locks (the world is paused)"""
+        out = {}
+        if self.c is not None:
+            out[('c_total', ())] = self.c._value._value
+        if self.p is not None:
+            for k, ch in list(self.p._metrics.items()):
+                out[('p_total', (('l', k[0]),))] = ch._value._value
+        if self.s is not None:
+            out[('s_count', ())] = self.s._count._value
+            out[('s_sum', ())] = self.s._sum._value
+        if self.h is not None:
+            out[('hh_sum', ())] = self.h._sum._value
+            for b, v in zip(('1.0', '2.0', '+Inf'), self.h._buckets):
+                out[('hh_bucket_raw', (('le', b),))] = v._value
+        return out
 
     def sample(self):
-        if self.c is not None:
-            try:
-                v = self.c._value._value
-            except Exception:
-                return
-            if not self.held or self.held[-1] != v:
-                self.held.append(v)
+        self.step += 1
+        try:
+            cur = self.raw_series()
+        except Exception:
+            return
+        for k, v in cur.items():
+            h = self.held.setdefault(k, [])
+            if not h or h[-1] != v:
+                h.append(v)
 
     def close(self):
         values = self.values_mod
@@ -274,12 +324,24 @@ def make_thunk(w, tid, ops, log):
         if k == 'obs':
             (w.s if f[1] == 's' else w.h).observe(float(f[2]))
             return [], None
+        if k == 'info':
+            w.I.info({'v': f[1]})
+            return [], None
+        if k == 'state':
+            w.N.state(['a', 'b', 'c'][int(f[1])])
+            return [], None
+        if k == 'sti':
+            w.R.set_target_info({'k': f[1]})
+            return [], None
+        if k == 'gti':
+            return [], {'gti': w.R.get_target_info()}
         raise ValueError('unknown op ' + op)
 
     def thunk():
         for idx, op in enumerate(ops):
+            t0 = w.step
             toks, extra = run_op(idx, op)
-            log.append((tid, idx, op, toks, extra))
+            log.append((tid, idx, op, toks, extra, t0, w.step))
     return thunk
 
 
@@ -307,7 +369,7 @@ def run_once(backend, flags, program, policy):
             thunks = [make_thunk(w, tid, ops, log) for tid, ops in enumerate(threads)]
             res = ENGINE.run(thunks, SamplingPolicy(policy, w))
             w.sample()
-            obs = {'log': log, 'held': list(w.held), 'final': None, 'final_err': None}
+            obs = {'log': log, 'held': {k: list(v) for k, v in w.held.items()}, 'final': None, 'final_err': None}
             if res.ok or (all(res.done) and not res.deadlock and not res.stalled):
                 try:
                     obs['final'] = final_state(w)
@@ -411,7 +473,7 @@ def real_outcome(program, res, obs):
         return 'STALLED'
     nthreads = len(program.split('|'))
     per = [[] for _ in range(nthreads)]
-    for tid, idx, op, toks, extra in sorted(obs['log'], key=lambda e: (e[0], e[1])):
+    for tid, idx, op, toks, extra, _a, _b in sorted(obs['log'], key=lambda e: (e[0], e[1])):
         per[tid] += toks
     fin = []
     vals = obs['final']['vals']
@@ -490,8 +552,8 @@ def identity_and_collect_oracle(ops, dyn, obs):
     # one shared child
     if not dyn:
         seen = {}
-        for tid, idx, op, toks, extra in obs['log']:
-            for t in toks:
+        for e in obs['log']:
+            for t in e[3]:
                 if t.startswith('L'):
                     k, i = t[1:].split('=')
                     if k in seen and seen[k] != i:
@@ -500,21 +562,53 @@ def identity_and_collect_oracle(ops, dyn, obs):
         for k, i in obs['final']['keys'].items():
             if k in seen and str(i) != seen[k]:
                 return ('C02:two-children', 'labels(%s) returned a child that is not the one in the table' % k)
-    # collected values are held values, and never decrease (completion order = log order)
-    held = set(obs['held'])
-    last = None
-    for tid, idx, op, toks, extra in obs['log']:
-        if op in ('col',) or op.startswith('rcol'):
-            if extra is None:
-                continue
-            v = extra.get(('c_total', ()))
-            if v is None:
-                continue
-            if held and v not in held:
-                return ('C02:phantom-value', 'collect reported c=%r, the series held only %r' % (v, sorted(held)))
-            if last is not None and v < last:
-                return ('C02:decrease', 'successive collects saw the counter go from %r down to %r' % (last, v))
-            last = v
+    # every value a collect reported is one the series held; a collect that STARTS after another one FINISHED never sees a
+    # smaller value of a counter / summary / histogram series (increments are non-negative)
+    held = {k: set(v) for k, v in obs['held'].items()}
+    cols = []
+    for tid, idx, op, toks, extra, t0, t1 in obs['log']:
+        if extra is None or not (op == 'col' or op.startswith('rcol')):
+            continue
+        view = dict(extra)
+        b1, b2, binf = (view.get(('hh_bucket', (('le', le),))) for le in ('1.0', '2.0', '+Inf'))
+        if None not in (b1, b2, binf):          # collect accumulates the buckets; the series hold the per-bucket counts
+            view[('hh_bucket_raw', (('le', '1.0'),))] = b1
+            view[('hh_bucket_raw', (('le', '2.0'),))] = b2 - b1
+            view[('hh_bucket_raw', (('le', '+Inf'),))] = binf - b2
+        for series, v in view.items():
+            if series in held and v not in held[series]:
+                return ('C02:phantom-value', 'a collect reported %s%r = %r, the series held only %r' % (
+                    series[0], dict(series[1]), v, sorted(held[series])))
+        cols.append((t0, t1, tid, view))
+    mono = [k for k in held if k[0] != 'hh_bucket_raw' and not (dyn and k[0] == 'p_total')]
+    mono += [('hh_bucket', (('le', le),)) for le in ('1.0', '2.0', '+Inf')] + [('hh_count', ())]
+    for a in cols:
+        for b in cols:
+            if a is not b and a[1] <= b[0] and a[0] < b[0]:      # b started after a had finished
+                for series in mono:
+                    va, vb = a[3].get(series), b[3].get(series)
+                    if va is not None and vb is not None and vb < va:
+                        return ('C02:decrease', 'successive collects saw %s%r go from %r down to %r' % (
+                            series[0], dict(series[1]), va, vb))
+    # Info / Enum / target info: what is read is something that was written (or the initial state); exactly one state is set
+    infos = {f[1] for f in ops if f[0] == 'info'}
+    tis = {f[1] for f in ops if f[0] == 'sti'}
+    for tid, idx, op, toks, extra, t0, t1 in obs['log']:
+        if extra is None:
+            continue
+        if 'gti' in extra:
+            g = extra['gti']
+            if not (g in (None, {}) or (isinstance(g, dict) and set(g) == {'k'} and g['k'] in tis)):
+                return ('C02:phantom-value', 'get_target_info() returned %r, never set' % (g,))
+            continue
+        for (name, labels), v in extra.items():
+            if name == 'inf_info' and not (labels == () or (len(labels) == 1 and labels[0][0] == 'v' and labels[0][1] in infos)):
+                return ('C02:phantom-value', 'collect reported info labels %r, never set' % (dict(labels),))
+            if name == 'target_info' and not (len(labels) == 1 and labels[0][0] == 'k' and labels[0][1] in tis):
+                return ('C02:phantom-value', 'collect reported target_info %r, never set' % (dict(labels),))
+        ens = [v for (name, labels), v in extra.items() if name == 'en']
+        if ens and sorted(ens) != [0, 0, 1]:
+            return ('C02:phantom-value', 'collect reported enum state samples %r (exactly one state must be set)' % (ens,))
     return None
 
 
@@ -593,60 +687,80 @@ def judge(ctx, models, backend, flags, program, use_model, res, obs, stats):
     return failed
 
 
-def explore_program(ctx, models, backend, flags, program, bound, use_model, budget_s, nrandom, stats):
-    t0 = time.time()
-    nthreads = len(program.split('|'))
-    results = {}
+class ProgramSearch:
+    """resumable search over the schedules of one (back-end, world, program): iterative context bounding, breadth first in the
+    number of pre-emptions (so `completed_bound` grows 0, 1, 2, …), then seeded random schedules"""
 
-    def once(policy):
-        res, obs = run_once(backend, flags, program, policy)
-        results['last'] = obs
+    def __init__(self, ctx, models, backend, flags, program, bound, use_model, stats):
+        self.ctx, self.models, self.stats = ctx, models, stats
+        self.backend, self.flags, self.program, self.bound, self.use_model = backend, flags, program, bound, use_model
+        self.last = {}
+        self.fails = 0
+        self.outs = set()
+        self.nruns = 0
+        self.wall = 0.0
+        self.done = False
+        self.ex = sched.explore(self._once, len(program.split('|')), bound, point_filter=relevant_point)
+
+    def _once(self, policy):
+        res, obs = run_once(self.backend, self.flags, self.program, policy)
+        self.last['obs'] = obs
         return res
-    ex = sched.explore(once, nthreads, bound, budget_s=budget_s, point_filter=relevant_point)
-    fails = 0
-    outs = set()
-    nruns = 0
-    for P, res in ex:
-        obs = results['last']
-        nruns += 1
-        ctx.count('%s:bound<=%d' % (backend, len(P)))
-        out = real_outcome(program, res, obs)
-        outs.add(out)
-        ctx.case((backend, flags, program, tuple(res.trace)),
-                 {'backend': backend, 'world': flags, 'program': program, 'preemptions': P, 'outcome': out} if len(P) == bound else None)
-        if judge(ctx, models, backend, flags, program, use_model, res, obs, stats):
-            fails += 1
-            if fails >= 3:
+
+    def _judge(self, res, obs, sample):
+        out = real_outcome(self.program, res, obs)
+        self.outs.add(out)
+        self.nruns += 1
+        self.ctx.case((self.backend, self.flags, self.program, tuple(res.trace)),
+                      dict(sample, outcome=out) if sample is not None else None)
+        if judge(self.ctx, self.models, self.backend, self.flags, self.program, self.use_model, res, obs, self.stats):
+            self.fails += 1
+
+    def advance(self, deadline, until_bound=None):
+        """run bounded schedules until the deadline, the end of the search, 3 failures, or `completed_bound >= until_bound`"""
+        t0 = time.time()
+        while not self.done and self.fails < 3 and time.time() < deadline:
+            if until_bound is not None and self.ex.completed_bound >= until_bound:
                 break
-    complete = bool(ex.complete)
-    if ex.nondeterministic:
-        stats['nondeterministic'] = stats.get('nondeterministic', 0) + len(ex.nondeterministic)
-    # seeded random schedules beyond the bound
-    for r in range(nrandom):
-        if fails >= 3 or (ctx.time_left() is not None and ctx.time_left() < 0):
-            break
-        rng_seed = ctx.rng.getrandbits(32)
+            try:
+                P, res = next(self.ex)
+            except StopIteration:
+                self.done = True
+                break
+            self.ctx.count('%s:%d-preemptions' % (self.backend, len(P)))
+            self._judge(res, self.last['obs'],
+                        {'backend': self.backend, 'world': self.flags, 'program': self.program, 'preemptions': P}
+                        if len(P) == self.bound else None)
+        self.wall += time.time() - t0
+
+    def randoms(self, n, deadline):
         import random
-        pol = sched.RandomPolicy(random.Random(rng_seed), switch_prob=ctx.rng.choice((0.05, 0.15, 0.4)))
-        res, obs = run_once(backend, flags, program, pol)
-        nruns += 1
-        ctx.count('%s:random' % backend)
-        out = real_outcome(program, res, obs)
-        outs.add(out)
-        ctx.case((backend, flags, program, tuple(res.trace)), None)
-        if judge(ctx, models, backend, flags, program, use_model, res, obs, stats):
-            fails += 1
-    m = models.get(backend, flags, program) if use_model else None
-    info = {'backend': backend, 'world': flags, 'program': program, 'bound': bound, 'runs': nruns,
-            'bounded_search_complete': complete, 'completed_bound': ex.completed_bound,
-            'distinct_real_outcomes': len(outs), 'wall_s': round(time.time() - t0, 2)}
-    if m is not None and m[0] != 'err':
-        info['model_states'] = m[0]
-        info['model_outcomes'] = len(m[1])
-        info['real_outcomes_covering_model'] = '%d/%d' % (len(outs & m[1]), len(m[1]))
-    elif m is not None:
-        info['model'] = m[1]
-    return info, fails
+        t0 = time.time()
+        for _ in range(n):
+            if self.fails >= 3 or time.time() > deadline:
+                break
+            pol = sched.RandomPolicy(random.Random(self.ctx.rng.getrandbits(32)),
+                                     switch_prob=self.ctx.rng.choice((0.05, 0.15, 0.4)))
+            res, obs = run_once(self.backend, self.flags, self.program, pol)
+            self.ctx.count('%s:random' % self.backend)
+            self._judge(res, obs, None)
+        self.wall += time.time() - t0
+
+    def report(self):
+        ex = self.ex
+        if ex.nondeterministic:
+            self.stats['nondeterministic'] = self.stats.get('nondeterministic', 0) + len(ex.nondeterministic)
+        m = self.models.get(self.backend, self.flags, self.program) if self.use_model else None
+        info = {'backend': self.backend, 'world': self.flags, 'program': self.program, 'bound': self.bound,
+                'runs': self.nruns, 'bounded_search_complete': bool(self.done and ex.complete),
+                'completed_bound': ex.completed_bound, 'distinct_real_outcomes': len(self.outs), 'wall_s': round(self.wall, 2)}
+        if m is not None and m[0] != 'err':
+            info['model_states'] = m[0]
+            info['model_outcomes'] = len(m[1])
+            info['real_outcomes_covering_model'] = '%d/%d' % (len(self.outs & m[1]), len(m[1]))
+        elif m is not None:
+            info['model'] = m[1]
+        return info
 
 
 def reentrant_register_probe(ctx):
@@ -671,7 +785,8 @@ def run(ctx):
     warnings.filterwarnings('ignore')
     quick = ctx.tier == 'quick'
     widen = bool(ctx.broken)
-    budget_total = (38.0 if quick else 420.0) * (1.5 if widen else 1.0)
+    # quick: use what is left of ~82 s after extraction / build / audit (between 25 and 50 s of scheduling)
+    budget_total = (max(25.0, min(50.0, 82.0 - (time.time() - ctx.t0))) if quick else 420.0) * (1.5 if widen else 1.0)
     ctx.deadline = time.time() + budget_total
     programs = list(QUICK_PROGRAMS) + ([] if quick else list(THOROUGH_PROGRAMS))
     if not quick:
@@ -690,21 +805,32 @@ def run(ctx):
     models.prefetch([(b, w, p) for (b, w, p, bd, m) in jobs if m])
     ctx.extra['model_enumeration_s'] = round(time.time() - t_model, 2)
     ctx.deadline = time.time() + budget_total
-    per_job = budget_total / max(len(jobs), 1)
     stats = {}
-    infos = []
-    total_fails = 0
-    for i, (backend, flags, program, bound, use_model) in enumerate(jobs):
-        left = ctx.deadline - time.time()
-        remaining_jobs = len(jobs) - i
-        budget = max(0.8, min(per_job * 1.5, left / remaining_jobs))
-        if left < 0.5:
-            stats['programs_skipped'] = stats.get('programs_skipped', 0) + 1
-            continue
-        info, fails = explore_program(ctx, models, backend, flags, program, bound, use_model,
-                                      budget_s=budget * 0.8, nrandom=(5 if quick else 40) * (2 if widen else 1), stats=stats)
-        infos.append(info)
-        total_fails += fails
+    searches = [ProgramSearch(ctx, models, b, w, p, bd, m, stats) for (b, w, p, bd, m) in jobs]
+    nrandom = (4 if quick else 40) * (2 if widen else 1)
+    # phase 1: every schedule with <= 1 pre-emption, for every program (an equal slice of 70% of the budget each, unused time
+    # rolls over); phase 2: random schedules; phase 3: the rest of the budget goes round-robin to the unfinished searches
+    # (first the ones whose bound-1 level is incomplete, then the deeper levels)
+    t_start = time.time()
+    phase1_end = t_start + 0.7 * budget_total
+    for i, sr in enumerate(searches):
+        now = time.time()
+        slice_end = now + max(0.3, (phase1_end - now) / (len(searches) - i))
+        sr.advance(min(slice_end, ctx.deadline), until_bound=min(1, sr.bound))
+    for sr in searches:
+        sr.randoms(nrandom, t_start + 0.85 * budget_total)
+    for level in (1, 2, 3):
+        pending = [sr for sr in searches if not sr.done and sr.fails < 3 and sr.ex.completed_bound < min(level, sr.bound)]
+        while pending and time.time() < ctx.deadline:
+            for sr in list(pending):
+                sr.advance(min(ctx.deadline, time.time() + 0.5), until_bound=min(level, sr.bound))
+                if sr.done or sr.fails >= 3 or sr.ex.completed_bound >= min(level, sr.bound):
+                    pending.remove(sr)
+                if time.time() >= ctx.deadline:
+                    break
+    infos = [sr.report() for sr in searches]
+    total_fails = sum(sr.fails for sr in searches)
+    ctx.extra['bound1_complete_for_all_programs'] = all(i['completed_bound'] >= min(1, i['bound']) for i in infos)
     ctx.extra['program_reports'] = infos
     ctx.extra['run_stats'] = stats
     try:
